@@ -2,10 +2,12 @@ import PydraModel.Roundtrip.Lemmas
 import PydraModel.Rules.Model
 namespace PydraModel.Roundtrip
 
-/-- Facts about the regenerated class tables that the round-trip theorem needs: attribute names are distinct. -/
+/-- Facts about the regenerated class tables that the round-trip theorems need: attribute names are distinct, and
+    `path_template` (the attribute by which `structure` recognises an outarg) defaults to `None`. -/
 def TableOK : Prop :=
   ((argTable .shell).map Prod.fst).Nodup ∧ ((outTable .shell).map Prod.fst).Nodup ∧
-  ((argTable .python).map Prod.fst).Nodup ∧ ((outTable .python).map Prod.fst).Nodup
+  ((argTable .python).map Prod.fst).Nodup ∧ ((outTable .python).map Prod.fst).Nodup ∧
+  (outargTable.map Prod.fst).Nodup ∧ outargTable.lookup "path_template" = some .none
 
 instance : Decidable TableOK := by unfold TableOK; infer_instance
 
@@ -14,21 +16,45 @@ theorem TableOK.arg (h : TableOK) (fl : Flavor) : ((argTable fl).map Prod.fst).N
   · exact h.2.2.1
   · exact h.1
 
-theorem TableOK.out (h : TableOK) (fl : Flavor) : ((outTable fl).map Prod.fst).Nodup := by
-  cases fl
-  · exact h.2.2.2
-  · exact h.2.1
+theorem TableOK.out (h : TableOK) (fl : Flavor) (b : Bool) : ((outTableFor fl b).map Prod.fst).Nodup := by
+  unfold outTableFor
+  cases b
+  · cases fl
+    · exact h.2.2.2.1
+    · exact h.2.1
+  · exact h.2.2.2.2.1
+
+/-- requirement sets occur under the attribute `requires` only (how field classes are declared) -/
+def ReqsOnly (f : Field) : Prop :=
+  f.attrs.all (fun kv => match kv.2 with | .reqs _ => kv.1 == "requires" | _ => true) = true
+
+instance (f : Field) : Decidable (ReqsOnly f) := by unfold ReqsOnly; infer_instance
+
+theorem ReqsOnly.spec {f : Field} (h : ReqsOnly f) : ∀ kv ∈ f.attrs, ∀ r, kv.2 = .reqs r → kv.1 = "requires" := by
+  intro kv hkv r hr
+  unfold ReqsOnly at h
+  have := List.all_eq_true.mp h kv hkv
+  rw [hr] at this
+  simpa using this
+
+def ReqsOnlyDef (d : Def) : Prop := ∀ f ∈ d.inputs ++ d.outputs, ReqsOnly f
+
+instance (d : Def) : Decidable (ReqsOnlyDef d) := by unfold ReqsOnlyDef; infer_instance
 
 /-- a definition as `python.define` / `shell.define` produce it -/
 def DefWF (d : Def) : Prop :=
   (∀ f ∈ d.inputs, FieldWF (argTable d.flavor) f) ∧
-  (∀ f ∈ d.outputs, FieldWF (outTable d.flavor) f) ∧
+  (∀ f ∈ d.outputs, FieldWF (outTableFor d.flavor f.isOutarg) f) ∧
+  -- an outarg has its path template (that is what makes it one)
+  (∀ f ∈ d.outputs, f.isOutarg = true → f.get "path_template" ≠ .none) ∧
   -- it passed `Task._check_arg_refs`
   refsOK d.flavor d.inputs d.outputs d.xor = true ∧
-  -- `shell.define` has given every input a position
-  (d.flavor = .shell → ∀ f ∈ d.inputs, f.get "position" ≠ .none) ∧
+  -- `shell.define` has given every input and outarg a position
+  (d.flavor = .shell → ∀ f ∈ d.inputs ++ d.outputs.filter Field.isOutarg, f.get "position" ≠ .none) ∧
   -- `function` is reserved (`python.define` raises otherwise)
-  (d.inputs.map (·.name)).contains "function" = false
+  (d.inputs.map (·.name)).contains "function" = false ∧
+  -- requirement sets sit under `requires`
+  ReqsOnlyDef d
 
 instance (d : Def) : Decidable (DefWF d) := by unfold DefWF; infer_instance
 
@@ -36,16 +62,141 @@ def SerOKDef (d : Def) : Prop := ∀ f ∈ d.inputs ++ d.outputs, SerOK f
 
 instance (d : Def) : Decidable (SerOKDef d) := by unfold SerOKDef; infer_instance
 
-theorem mapE_roundtrip (T : Attrs) (hT : (T.map Prod.fst).Nodup) (fs : List Field)
-    (hwf : ∀ f ∈ fs, FieldWF T f) (hser : ∀ f ∈ fs, SerOK f) :
-    mapE (fun ne => entryField T ne.1 ne.2) (fs.map (fun f => (f.name, Entry.raw (unstructureField T f)))) = .ok fs := by
+/-- what the round trip makes of a definition, if `structure` accepts it -/
+def roundDef (d : Def) : Def :=
+  { d with inputs := d.inputs.map (roundField (argTable d.flavor)),
+           outputs := d.outputs.map (fun f => roundField (outTableFor d.flavor f.isOutarg) f) }
+
+/-! ### lists -/
+
+theorem lookup_some_mem {β} (l : List (String × β)) {k : String} {v : β} (h : l.lookup k = some v) : (k, v) ∈ l := by
+  induction l with
+  | nil => simp at h
+  | cons x xs ih =>
+    obtain ⟨k', v'⟩ := x
+    rw [List.lookup_cons] at h
+    by_cases hk : (k == k') = true
+    · simp only [hk] at h
+      have : k = k' := by simpa using hk
+      cases h; subst this; simp
+    · have hk' : (k == k') = false := by simpa using hk
+      simp only [hk'] at h
+      simp [ih h]
+
+theorem lookup_map_val {β} (l : List (String × β)) (h : String → β → β) (k : String) :
+    (l.map (fun kv => (kv.1, h kv.1 kv.2))).lookup k = (l.lookup k).map (h k) := by
+  induction l with
+  | nil => simp
+  | cons x xs ih =>
+    obtain ⟨k', v'⟩ := x
+    simp only [List.map_cons, List.lookup_cons]
+    by_cases hk : (k == k') = true
+    · have : k = k' := by simpa using hk
+      subst this; simp
+    · have hk' : (k == k') = false := by simpa using hk
+      simp only [hk']
+      exact ih
+
+/-! ### one field, without `SerOK` -/
+
+theorem roundField_name (T : Attrs) (f : Field) : (roundField T f).name = f.name := rfl
+
+theorem roundField_keys (T : Attrs) (f : Field) :
+    (roundField T f).attrs.map Prod.fst = f.attrs.map Prod.fst := by
+  simp [roundField, roundAttr, List.map_map, Function.comp_def]
+
+theorem roundField_isOutarg (T : Attrs) (f : Field) : (roundField T f).isOutarg = f.isOutarg := by
+  show ((roundField T f).attrs.map Prod.fst).contains "path_template" = (f.attrs.map Prod.fst).contains "path_template"
+  rw [roundField_keys]
+
+/-- the round trip leaves every attribute other than `requires` alone -/
+theorem roundField_get (T : Attrs) (f : Field) (hro : ReqsOnly f) (k : String) (hk : k ≠ "requires") :
+    (roundField T f).get k = f.get k := by
+  have h := lookup_map_val f.attrs (fun k v => if T.lookup k = some v then v else deser (ser v)) k
+  show (List.lookup k (f.attrs.map (roundAttr T))).getD Val.none = (List.lookup k f.attrs).getD Val.none
+  have h' : f.attrs.map (roundAttr T)
+      = f.attrs.map (fun kv => (kv.1, (fun k v => if T.lookup k = some v then v else deser (ser v)) kv.1 kv.2)) := rfl
+  rw [h', h]
+  cases hl : f.attrs.lookup k with
+  | none => rfl
+  | some v =>
+    simp only [Option.map_some, Option.getD_some]
+    by_cases hd : T.lookup k = some v
+    · simp [hd]
+    · simp only [hd, if_false]
+      apply deser_ser_of_not_reqs
+      intro r hr
+      exact hk (hro.spec (k, v) (lookup_some_mem f.attrs hl) r hr)
+
+/-- `structure` recognises an outarg in the dictionary exactly when the field was one -/
+theorem unstructured_has_template (hT : TableOK) (fl : Flavor) (f : Field)
+    (_hwf : FieldWF (outTableFor fl f.isOutarg) f) (htpl : f.isOutarg = true → f.get "path_template" ≠ .none) :
+    ((unstructureField (outTableFor fl f.isOutarg) f).map (·.1)).contains "path_template" = f.isOutarg := by
+  cases hio : f.isOutarg with
+  | false =>
+    have hno : "path_template" ∉ f.attrs.map Prod.fst := by
+      unfold Field.isOutarg at hio
+      intro hm
+      have : (f.attrs.map (·.1)).contains "path_template" = true := by simpa using hm
+      rw [hio] at this; cases this
+    cases hc : ((unstructureField (outTableFor fl false) f).map (·.1)).contains "path_template" with
+    | false => rfl
+    | true =>
+      exfalso
+      have hm : "path_template" ∈ (unstructureField (outTableFor fl false) f).map (·.1) := by simpa using hc
+      unfold unstructureField at hm
+      simp only [List.map_map, List.mem_map, List.mem_filter, Function.comp_def] at hm
+      obtain ⟨kv, ⟨hkv, _⟩, hk⟩ := hm
+      exact hno (List.mem_map.mpr ⟨kv, hkv, hk⟩)
+  | true =>
+    have hg := htpl hio
+    unfold Field.get at hg
+    cases hl : f.attrs.lookup "path_template" with
+    | none => rw [hl] at hg; simp at hg
+    | some v =>
+      rw [hl] at hg
+      have hv : v ≠ .none := by simpa using hg
+      have hmem := lookup_some_mem f.attrs hl
+      have hT' : (outTableFor fl true).lookup "path_template" = some .none := by
+        unfold outTableFor; simp only [if_true]; exact hT.2.2.2.2.2
+      have : "path_template" ∈ (unstructureField (outTableFor fl true) f).map (·.1) := by
+        unfold unstructureField
+        simp only [List.map_map, List.mem_map, List.mem_filter, Function.comp_def]
+        refine ⟨("path_template", v), ⟨hmem, ?_⟩, rfl⟩
+        simp only [hT']
+        simpa using fun h => hv h.symm
+      simpa using this
+
+theorem mapE_inputs_gen (T : Attrs) (hT : (T.map Prod.fst).Nodup) (fs : List Field) (hwf : ∀ f ∈ fs, FieldWF T f) :
+    mapE (fun ne => entryField T ne.1 ne.2) (fs.map (fun f => (f.name, Entry.raw (unstructureField T f))))
+      = .ok (fs.map (roundField T)) := by
   induction fs with
   | nil => rfl
   | cons f fs ih =>
-    have h1 := structureField_unstructureField T hT f (hwf f (by simp)) (hser f (by simp))
-    have h2 := ih (fun g hg => hwf g (by simp [hg])) (fun g hg => hser g (by simp [hg]))
-    have h0 : entryField T f.name (Entry.raw (unstructureField T f)) = .ok f := by simp [entryField, h1]
+    have h1 := structureField_unstructureField_gen T hT f (hwf f (by simp))
+    have h2 := ih (fun g hg => hwf g (by simp [hg]))
+    have h0 : entryField T f.name (Entry.raw (unstructureField T f)) = .ok (roundField T f) := by
+      simp [entryField, h1]
     simp only [List.map_cons, mapE, h0, h2]
+
+theorem mapE_outputs_gen (hT : TableOK) (fl : Flavor) (fs : List Field)
+    (hwf : ∀ f ∈ fs, FieldWF (outTableFor fl f.isOutarg) f)
+    (htpl : ∀ f ∈ fs, f.isOutarg = true → f.get "path_template" ≠ .none) :
+    mapE (fun ne => outEntryField fl ne.1 ne.2)
+        (fs.map (fun f => (f.name, Entry.raw (unstructureField (outTableFor fl f.isOutarg) f))))
+      = .ok (fs.map (fun f => roundField (outTableFor fl f.isOutarg) f)) := by
+  induction fs with
+  | nil => rfl
+  | cons f fs ih =>
+    have hsel := unstructured_has_template hT fl f (hwf f (by simp)) (htpl f (by simp))
+    have h1 := structureField_unstructureField_gen _ (hT.out fl f.isOutarg) f (hwf f (by simp))
+    have h2 := ih (fun g hg => hwf g (by simp [hg])) (fun g hg => htpl g (by simp [hg]))
+    have h0 : outEntryField fl f.name (Entry.raw (unstructureField (outTableFor fl f.isOutarg) f))
+        = .ok (roundField (outTableFor fl f.isOutarg) f) := by
+      simp only [outEntryField, hsel, h1]
+    simp only [List.map_cons, mapE, h0, h2]
+
+/-! ### positions -/
 
 theorem assignGo_id (fs : List Field) (free : List Int) (h : ∀ f ∈ fs, f.get "position" ≠ .none) :
     assignGo fs free = fs := by
@@ -63,8 +214,25 @@ theorem assignPositions_id (fs : List Field) (h : ∀ f ∈ fs, f.get "position"
   unfold assignPositions
   exact assignGo_id fs _ h
 
+theorem mergeOutargs_self (fs : List Field) : mergeOutargs fs (fs.filter Field.isOutarg) = fs := by
+  induction fs with
+  | nil => rfl
+  | cons f fs ih =>
+    cases h : f.isOutarg with
+    | true => simp [mergeOutargs, h, ih]
+    | false => simp [mergeOutargs, h, ih]
+
 theorem unstructure_names (d : Def) : (unstructureDef d).inputs.map (·.1) = d.inputs.map (·.name) := by
   simp [unstructureDef, List.map_map, Function.comp_def]
+
+theorem filter_isOutarg_round (fl : Flavor) (fs : List Field) :
+    (fs.map (fun f => roundField (outTableFor fl f.isOutarg) f)).filter Field.isOutarg
+      = (fs.filter Field.isOutarg).map (fun f => roundField (outTableFor fl f.isOutarg) f) := by
+  induction fs with
+  | nil => rfl
+  | cons f fs ih =>
+    simp only [List.map_cons, List.filter_cons, roundField_isOutarg]
+    cases h : f.isOutarg <;> simp [ih, h]
 
 /-! ### what the rule check sees of a definition (`Rules` engine) -/
 
